@@ -190,10 +190,53 @@ func c19Judge(m c19Meta) (v hx.Verdict) {
 					"CompareFieldName(%q,%q) exact=%v: got %v want %v", pats[0], q.Path, q.Exact, got, want)
 			}
 		}
+	case "options-copies":
+		// Several copies of ONE options value, each with its own :skip list, queried in turn: the way the parser hands the
+		// options from the interface to each method (by value). What one copy answered must not show in another.
+		base := option.NewOptions()
+		lists := strings.Split(m.Pattern, "\x01")
+		copies := make([]option.Options, len(lists))
+		for k, l := range lists {
+			o := base
+			for _, p := range strings.Split(l, "\x00") {
+				pm, err := option.NewPatternMatcher(p, m.Create)
+				if err != nil {
+					return hx.Pass // judged by the "options" family
+				}
+				if _, valid := c19Oracle(p, "", true); !valid {
+					return hx.Pass
+				}
+				o.SkipFields = append(o.SkipFields, pm)
+			}
+			copies[k] = o
+		}
+		for i, q := range m.Queries {
+			step = i
+			k := i % len(copies)
+			o := copies[k]
+			o.ExactCase = q.Exact
+			want := false
+			for _, p := range strings.Split(lists[k], "\x00") {
+				w, _ := c19Oracle(p, q.Path, q.Exact)
+				want = want || w
+			}
+			if got := o.ShouldSkip(q.Path); got != want {
+				return hx.Failf("C19|options-copies|"+c19Construct(strings.Split(lists[k], "\x00")[0])+"|wrong-answer",
+					"copy %d of one options value, query #%d: ShouldSkip(%q) exact=%v with patterns %q: got %v want %v (the other copies hold %q)", k, i, q.Path, q.Exact, strings.Split(lists[k], "\x00"), got, want, lists)
+			}
+		}
 	default:
 		return hx.Failf("harness|bad-api", "unknown api %q", m.API)
 	}
 	return hx.Pass
+}
+
+// c19First returns the first pattern of a pattern list ("\x00" separates patterns, "\x01" lists).
+func c19First(p string) string {
+	if i := strings.IndexAny(p, "\x00\x01"); i >= 0 {
+		return p[:i]
+	}
+	return p
 }
 
 func c19Plain(a, b string, exact bool) bool {
@@ -366,9 +409,9 @@ func genC19Meta() *rapid.Generator[c19Meta] {
 	return rapid.Custom(func(t *rapid.T) c19Meta {
 		path := genPath().Draw(t, "path")
 		var m c19Meta
-		m.API = rapid.SampledFrom([]string{"pattern", "pattern", "pattern", "pattern", "options", "ident", "name", "conv", "literal"}).Draw(t, "api")
+		m.API = rapid.SampledFrom([]string{"pattern", "pattern", "pattern", "pattern", "options", "ident", "name", "conv", "literal", "options-copies"}).Draw(t, "api")
 		mkPattern := func() string {
-			if m.API == "pattern" || m.API == "options" {
+			if m.API == "pattern" || m.API == "options" || m.API == "options-copies" {
 				switch rapid.IntRange(0, 9).Draw(t, "form") {
 				case 0, 1, 2:
 					return mutateCase(t, path)
@@ -387,6 +430,24 @@ func genC19Meta() *rapid.Generator[c19Meta] {
 				m.Pattern += "\x00" + mkPattern()
 			}
 		}
+		if m.API == "options-copies" {
+			// two or three lists of equal length, different content
+			n := rapid.IntRange(1, 2).Draw(t, "listLen")
+			nl := rapid.IntRange(2, 3).Draw(t, "lists")
+			var lists []string
+			for k := 0; k < nl; k++ {
+				var l []string
+				for i := 0; i < n; i++ {
+					if k > 0 && rapid.IntRange(0, 2).Draw(t, "otherName") == 0 {
+						l = append(l, rapid.SampledFrom([]string{"Other", "other.Path", "/^zz/", "X"}).Draw(t, "otherPat"))
+					} else {
+						l = append(l, mkPattern())
+					}
+				}
+				lists = append(lists, strings.Join(l, "\x00"))
+			}
+			m.Pattern = strings.Join(lists, "\x01")
+		}
 		m.Create = rapid.Bool().Draw(t, "create")
 		nq := rapid.IntRange(1, 6).Draw(t, "nq")
 		for i := 0; i < nq; i++ {
@@ -397,7 +458,7 @@ func genC19Meta() *rapid.Generator[c19Meta] {
 			case 1:
 				q.Path = mutateCase(t, path)
 			case 2:
-				first, _, _ := strings.Cut(m.Pattern, "\x00")
+				first := c19First(m.Pattern)
 				q.Path = mutateCase(t, strings.Trim(first, "/"))
 			default:
 				q.Path = genPath().Draw(t, "other")
@@ -551,7 +612,7 @@ func TestC19(t *testing.T) {
 		m := genC19Meta().Draw(rt, "case")
 		rec.Eval()
 		rec.Class("api:" + m.API)
-		first, _, _ := strings.Cut(m.Pattern, "\x00")
+		first := c19First(m.Pattern)
 		rec.Class("construct:" + c19Construct(first))
 		if _, valid := c19Oracle(first, "", true); !valid {
 			rec.Class("re2-rejects-pattern")
